@@ -2007,7 +2007,7 @@ class Enum(Adapter):
             if isinstance(obj, int):
                 return obj
             return self.encmapping[obj]
-        except KeyError:
+        except (KeyError, TypeError):
             raise MappingError("building failed, no mapping for %r" % (obj,), path=path)
 
     def _emitparse(self, code):
